@@ -29,6 +29,23 @@ def _norm(s):
     return " ".join(s.split())
 
 
+def _alpha(text):
+    """einsum subscripts up to a bijective renaming of the index letters (their meaning does not
+    depend on which letters are used): labels are renumbered in order of first occurrence,
+    separately for each einsum of a `;`-separated pair."""
+    out = []
+    for part in text.split(";"):
+        ren = {}
+        toks = []
+        for tok in part.split():
+            if tok.isdigit():
+                toks.append(str(ren.setdefault(tok, len(ren))))
+            else:
+                toks.append(tok)
+        out.append(" ".join(toks))
+    return " ; ".join(out)
+
+
 def _labs(s):
     from qibo.config import EINSUM_CHARS
 
@@ -105,7 +122,7 @@ def string_suite(ctx, dm):
         ctx.stat(f"str_{fn}" + ("_raise" if exc else ""))
         if exc and exc not in ("NotImplementedError",):
             ctx.stat(f"str_raise_{exc}")
-        if _norm(got) != want:
+        if _alpha(_norm(got)) != _alpha(want):
             bad.append((fn, n, ts, want, _norm(got)))
     name = f"{ctx.prop}_corr_einsum_strings"
     if bad:
